@@ -357,7 +357,7 @@ def shape_with_env(e, env, at=None):
 
 def _mentions_params(node, env):
     e = node[1] if isinstance(node, tuple) and len(node) > 1 else node
-    if not is_node(e) or e.get("k") == "VerOr":
+    if not is_node(e) or e.get("k") in ("VerOr", "VerImp"):
         return False
     return any(x["k"] == "Ref" and x.get("rk") == "param" and x.get("id") in env.param_index for x in walk(e))
 
@@ -410,6 +410,15 @@ def _canon_guards(g, env, at, depth=0):
             sub = flow._mark_version(sub)
             out.extend(_canon_guards(_facts_to_triples(sub, env), env, at, depth + 1))
             continue
+        if is_node(node) and node.get("k") == "VerImp":
+            # re-render the data guard inside the implication like any other local guard, so that local names do not matter
+            ik, ipol = node["then"]
+            inner = _canon_guards(((ik, ipol, local),), env, at, depth + 1)
+            for it in inner:
+                nk = key.split("}=>", 1)[0] + "}=>" + ("" if it[1] else "!") + it[0]
+                flow.KEYNODE[nk] = {"k": "VerImp", "conj": node["conj"], "then": (it[0], it[1])}
+                out.append((nk, True, local))
+            continue
         px = node is not None and _mentions_params(node, env)
         if local and node is not None and not px:
             try:
@@ -418,7 +427,7 @@ def _canon_guards(g, env, at, depth=0):
                     if p2 == node[2] and k2 != key:
                         flow.KEYNODE.setdefault(k2, node)
                         key = k2
-                elif is_node(node) and node["k"] != "VerOr":
+                elif is_node(node) and node["k"] not in ("VerOr", "VerImp"):
                     k2 = shape_with_env(node, env, at)
                     if k2 != key:
                         flow.KEYNODE.setdefault(k2, node)
